@@ -320,7 +320,111 @@ func c13Replay(c c13Case) (*c13World, *c13Model, error) {
 	return w, m, nil
 }
 
+// ---- large ranges: whole address space, halves, ranges ending at $FFFFFF / starting at 0, single
+// segments at both ends. Every sequence up to the depth is executed on a fresh bus and a set of probe
+// addresses (each range's edges, one segment inside and outside) is read and written.
+
+type c13BigCase struct {
+	Big  []c13Attach `json:"big_ranges"`
+	Mems int         `json:"mems"`
+}
+
+var c13BigRanges = [][2]uint32{{0x000000, 0xFFFFFF}, {0x000000, 0x7FFFFF}, {0x800000, 0xFFFFFF}, {0x00FFF0, 0xFFFFFF}, {0x000000, 0xFF000F},
+	{0xFFFFF0, 0xFFFFFF}, {0x000000, 0x00000F}, {0x7FFFF0, 0x80000F}}
+
+func c13BigProbes() []uint32 {
+	set := map[uint32]bool{}
+	for _, r := range c13BigRanges {
+		for _, a := range []uint32{r[0], r[0] + 15, r[1] - 15, r[1]} {
+			set[a] = true
+			if a >= 16 {
+				set[a-16] = true
+			}
+			if a+16 <= 0xFFFFFF {
+				set[a+16] = true
+			}
+		}
+	}
+	set[0x400000], set[0xC00008] = true, true
+	var out []uint32
+	for a := range set {
+		out = append(out, a)
+	}
+	sort.Slice(out, func(i, j int) bool { return out[i] < out[j] })
+	return out
+}
+
+func c13BigRun(c c13BigCase) (sig, what string) {
+	w := c13New(c.Mems)
+	owner := func(a uint32) int {
+		o := 0
+		for _, t := range c.Big {
+			if a >= t.Start && a <= t.End {
+				o = t.Mem
+			}
+		}
+		return o
+	}
+	for i, t := range c.Big {
+		if err := w.b.Attach(w.mems[t.Mem-1], "m", t.Start, t.End); err != nil {
+			return "unexplained:attach-result", fmt.Sprintf("aligned Attach #%d ($%06x,$%06x) rejected: %v", i, t.Start, t.End, err)
+		}
+	}
+	for _, a := range c13BigProbes() {
+		own := owner(a)
+		w.log = w.log[:0]
+		v, p := c13SafeRead(w, a)
+		switch {
+		case own == 0 && !p:
+			return "unexplained:unattached-read-does-not-fail", fmt.Sprintf("after %+v: read of never-attached $%06x returned $%02x", c.Big, a, v)
+		case own != 0 && (p || len(w.log) != 1 || w.log[0] != (c13Access{own, a, false, 0}) || v != c13Val(own, a)):
+			return "unexplained:read-misrouted", fmt.Sprintf("after %+v: read of $%06x should reach memory %d with the full address; panicked=%v, memories saw %v", c.Big, a, own, p, w.log)
+		}
+		w.log = w.log[:0]
+		p = c13SafeWrite(w, a, 0x3C)
+		switch {
+		case own == 0 && !p:
+			return "unexplained:unattached-write-does-not-fail", fmt.Sprintf("after %+v: write to never-attached $%06x did not fail", c.Big, a)
+		case own != 0 && (p || len(w.log) != 1 || w.log[0] != (c13Access{own, a, true, 0x3C})):
+			return "unexplained:write-misrouted", fmt.Sprintf("after %+v: write to $%06x should reach memory %d; panicked=%v, memories saw %v", c.Big, a, own, p, w.log)
+		}
+	}
+	return "", ""
+}
+
+func c13BigCases(depth, nm int) []c13BigCase {
+	var syms []c13Attach
+	for k := 1; k <= nm; k++ {
+		for _, r := range c13BigRanges {
+			syms = append(syms, c13Attach{k, r[0], r[1]})
+		}
+	}
+	var out []c13BigCase
+	var rec func(p []c13Attach, d int)
+	rec = func(p []c13Attach, d int) {
+		if len(p) > 0 {
+			out = append(out, c13BigCase{append([]c13Attach(nil), p...), nm})
+		}
+		if d == 0 {
+			return
+		}
+		for _, s := range syms {
+			rec(append(p, s), d-1)
+		}
+	}
+	rec(nil, depth)
+	return out
+}
+
 func replayC13(raw json.RawMessage) (string, error) {
+	var bc c13BigCase
+	if json.Unmarshal(raw, &bc) == nil && len(bc.Big) > 0 {
+		sig, what := c13BigRun(bc)
+		if sig == "" {
+			return "routing after the large attaches agrees with the model", nil
+		}
+		return what, fmt.Errorf("%s", sig)
+	}
 	var c c13Case
 	if err := json.Unmarshal(raw, &c); err != nil {
 		return "", err
@@ -435,6 +539,22 @@ func runC13(r *report.Run) {
 		states += int64(len(seen))
 		r.Set(fmt.Sprintf("states_window_%06x", base), int64(len(seen)))
 	}
+	// large ranges
+	bdepth := 2
+	if thorough {
+		bdepth = 3
+	}
+	big := c13BigCases(bdepth, 2)
+	var nbig int64
+	par.For(len(big), func(_, i int) {
+		atomic.AddInt64(&nbig, int64(len(big[i].Big)))
+		if sig, what := c13BigRun(big[i]); sig != "" {
+			r.ViolationSized(sig, what, big[i], len(big[i].Big))
+		}
+	})
+	states += int64(len(big))
+	transitions += nbig
+	r.Set("large_range_sequences", int64(len(big)))
 	r.Set("states", states)
 	r.Set("transitions", transitions)
 	r.Set("traces_validated_against_impl", transitions)
